@@ -583,6 +583,66 @@ fn gen_c11(rec: &mut Rec, rng: &mut Rng, scale: u64) {
             }
         }
     }
+    // a value read after a preceding sibling container was walked through to its last entry, itself a
+    // container: [[1, [2, 3]], <value>, <value>] and {"p": {"q": {}}, "v": <value>, "w": <value>}
+    for kind in 0..3u64 {
+        for &n in &[5usize, 16383, 16384, 16385] {
+            for objparent in [false, true] {
+                rec.case("c11after");
+                let inner = mp::gen_big(rng, n, kind);
+                let mut doc: Vec<u8> = Vec::new();
+                if objparent {
+                    doc.extend_from_slice(&[0x83, 0xa1, b'p', 0x81, 0xa1, b'q', 0x80, 0xa1, b'v']);
+                    doc.extend_from_slice(&inner);
+                    doc.extend_from_slice(&[0xa1, b'w']);
+                    doc.extend_from_slice(&inner);
+                } else {
+                    doc.extend_from_slice(&[0x93, 0x92, 0x01, 0x92, 0x02, 0x03]);
+                    doc.extend_from_slice(&inner);
+                    doc.extend_from_slice(&inner);
+                }
+                rec.bump(&format!("c11after:kind{}", kind));
+                rec.op(&format!("init {}", hex0(&doc)));
+                let r = rec.op("root");
+                let root = r.split_whitespace().nth(1).unwrap_or("h0").to_string();
+                let first = rec.op(&format!("idx {} 0", root));
+                if let Some(fh) = first.split_whitespace().nth(1) {
+                    // hand out every entry of the first container; the last one is a container
+                    rec.op(&format!("idx {} 0", fh));
+                    if !objparent {
+                        rec.op(&format!("idx {} 1", fh));
+                    }
+                }
+                for i in 1..3 {
+                    let t = rec.op(&format!("idx {} {}", root, i));
+                    let tk: Vec<&str> = t.split_whitespace().collect();
+                    if tk.len() != 3 {
+                        continue;
+                    }
+                    let h = tk[1];
+                    rec.op(&format!("len {}", h));
+                    rec.op(&format!("a.len {}", h));
+                    match tk[0] {
+                        "str" => {
+                            rec.op(&format!("a.str {}", h));
+                        }
+                        "arr" => {
+                            rec.op(&format!("idx {} {}", h, n - 1));
+                            rec.op(&format!("idx {} {}", h, n));
+                        }
+                        _ => {
+                            rec.op(&format!("a.key {} {}", h, n - 1));
+                            rec.op(&format!("key {} {}", h, n));
+                        }
+                    }
+                }
+                if objparent {
+                    rec.op(&format!("a.key {} 1", root));
+                    rec.op(&format!("prop {} {}", root, hex0(b"w")));
+                }
+            }
+        }
+    }
     // several inputs one after the other on the same thread, each with a big value of the same kind at the
     // same position but another true length (anything remembered per handle or per position across inputs
     // shows here)
@@ -681,6 +741,20 @@ fn gen_str_payload(rng: &mut Rng, allow_big: bool) -> Vec<u8> {
     (0..n).map(|i| b'a' + ((s as usize + i * 7) % 26) as u8).collect()
 }
 
+/// arbitrary bytes (not UTF-8 in general): only ever handed to the provider-level entry points, which
+/// copy bytes and never look at them
+fn gen_raw_payload(rng: &mut Rng) -> Vec<u8> {
+    let n = *rng.pick(&[1usize, 2, 3, 4, 7, 31, 32, 40]);
+    let mut v: Vec<u8> = (0..n).map(|_| rng.below(256) as u8).collect();
+    // make sure there is an ill-formed sequence: a lone continuation byte, a truncated lead byte, 0xff
+    let k = rng.below(n as u64) as usize;
+    v[k] = *rng.pick(&[0x80u8, 0xbf, 0xc3, 0xe2, 0xf0, 0xff, 0xc0]);
+    if k + 1 < n {
+        v[k + 1] = b'a';
+    }
+    v
+}
+
 fn f64_bits(rng: &mut Rng) -> u64 {
     match rng.below(8) {
         0 => 0x8000_0000_0000_0000,
@@ -716,8 +790,16 @@ fn gen_writes(rec: &mut Rec, rng: &mut Rng, cases: u64, keep_going: bool) {
         let mut interned: Vec<usize> = Vec::new();
         if rng.chance(1, 3) {
             for _ in 0..rng.range(1, 3) {
-                let p = gen_str_payload(rng, false);
-                let a = rec.op(&format!("intern {}", hex0(&p)));
+                let a = if rng.chance(1, 3) {
+                    // bytes that are not UTF-8, through the provider-level entry point (reserve, then copy)
+                    let p = gen_raw_payload(rng);
+                    let a = rec.op(&format!("internreq {}", p.len()));
+                    rec.op(&format!("interncopy {}", hex0(&p)));
+                    a
+                } else {
+                    let p = gen_str_payload(rng, false);
+                    rec.op(&format!("intern {}", hex0(&p)))
+                };
                 if let Some(id) = a.strip_prefix("id ").and_then(|x| x.parse().ok()) {
                     interned.push(id);
                 }
@@ -765,6 +847,7 @@ fn gen_writes(rec: &mut Rec, rng: &mut Rng, cases: u64, keep_going: bool) {
                         1 => format!("{} null", lvl),
                         2 => format!("{} i32 {}", lvl, if rng.chance(2, 3) { *rng.pick(I32S) } else { (rng.next() as i32) as i64 }),
                         3 => format!("{} f64 {:016x}", lvl, f64_bits(rng)),
+                        4 if lvl == "w" && rng.chance(1, 5) => format!("w str {}", hex0(&gen_raw_payload(rng))),
                         4 => format!("{} str {}", lvl, hex0(&gen_str_payload(rng, allow_big))),
                         5 if !interned.is_empty() => format!("w istr {}", rng.pick(&interned)),
                         5 => format!("{} null", lvl),
@@ -942,6 +1025,11 @@ fn gen_logs(rec: &mut Rec, rng: &mut Rng, cases: u64, thorough: bool) {
                 rec.op(&format!("log {} {}", len, seed));
             }
             rec.op("logs?");
+            // now and then a new invocation starts on the same thread: the ring starts empty again
+            if rng.chance(1, 12) {
+                rec.op("init c0");
+                rec.op("logs?");
+            }
         }
     }
     // plans for enormous lengths (no copy: the message would not fit in memory)
@@ -1288,6 +1376,9 @@ fn gen_intern(rec: &mut Rec, rng: &mut Rng, cases: u64) {
                             5 => vec![b'x'; rng.range(1, 5) as usize],
                             _ => [b"ab".to_vec(), b"ab".to_vec(), vec![b'a'; rng.below(2) as usize]].concat(),
                         }
+                    } else if rng.chance(1, 8) {
+                        // bytes that are not UTF-8 (interned through reserve + copy below)
+                        gen_raw_payload(rng)
                     } else if rng.chance(1, 2) {
                         mp::gen_key(rng)
                     } else {
@@ -1301,7 +1392,7 @@ fn gen_intern(rec: &mut Rec, rng: &mut Rng, cases: u64) {
                         };
                         (0..len).map(|i| b'a' + (i % 26) as u8).collect()
                     };
-                    let a = if k.len() > 200_000 || rng.chance(1, 2) {
+                    let a = if k.len() > 200_000 || std::str::from_utf8(&k).is_err() || rng.chance(1, 2) {
                         let a = rec.op(&format!("internreq {}", k.len()));
                         // another intern may be requested before the copy only on another thread;
                         // on one thread the glue copies immediately
@@ -1457,7 +1548,21 @@ fn gen_invocations(rec: &mut Rec, rng: &mut Rng, cases: u64) {
                 *acts = pre;
             }
         }
+        if rng.chance(1, 6) {
+            // an earlier invocation with a zero-length input that still writes and logs
+            invs[0].0 = Vec::new();
+        }
+        let early: Vec<String> = if rng.chance(1, 8) {
+            // calls made on the thread before its first initialisation
+            let na = rng.range(1, 6) as usize;
+            gen_activity(rng, na, 0).into_iter().filter(|a| a.starts_with("w ") || a.starts_with("log ")).collect()
+        } else {
+            Vec::new()
+        };
         rec.case("c13");
+        for a in &early {
+            rec.op(a);
+        }
         // interning may happen at any time; here before and between invocations
         let mut pending = interns.clone();
         let mut last_answers: Vec<String> = Vec::new();
